@@ -171,6 +171,42 @@ def classify(op, a, b, impl, exp):
     return None
 
 
+# ------------------------------------------------------------------------------ one dimension, two float routes
+# (texts of the two operands, the exact exponent both denote, on which base)
+ROUTE_PAIRS = [('m^0.1 m^0.2', 'm^0.3', 'm', '3/10'), ('s^1.1 s^2.2', 's^3.3', 's', '33/10'), ('(mol^0.1)^3', 'mol^0.3', 'mol', '3/10'),
+               ('K^0.7/K^0.4', 'K^0.3', 'K', '3/10'), ('A^0.3', 'A^0.1 A^0.2', 'A', '3/10'), ('kg^0.6 kg^0.1', 'kg^0.7', 'kg', '7/10'),
+               # controls: the doubles coincide (dyadic parts; an integer total is snapped)
+               ('kg^0.5 kg^0.25', 'kg^0.75', 'kg', '3/4'), ('m^0.1 m^0.2 m^0.7', 'm', 'm', '1'), ('cd^1.5 cd^1.5', 'cd^3', 'cd', '3')]
+
+
+def route_operand_cases(ctx):
+    """two quantities of ONE dimension whose non-integer exponent was accumulated along different float routes
+    (0.1 + 0.2 = 0.30000000000000004 against the literal 0.3): same dimension by the definitions, so they add, compare and
+    convert.  Conversion does (it snaps the residue of the division); +, -, ==, <, has_units compare the exponent arrays with
+    exact == and refuse: recorded finding FU5 for exactly that class (the two doubles differ by less than the package's own
+    1e-7 threshold); anything else is a violation."""
+    from pgradd.Units import eval_qty
+    for ta, tb, base, e in ROUTE_PAIRS:
+        k = L.PRIMS.index(base)
+        want_dim = [float(Fraction(e)) if i == k else 0.0 for i in range(7)]
+        a2, b3, b2 = 2.0 * eval_qty(ta), 3.0 * eval_qty(tb), 2.0 * eval_qty(tb)
+        da, db = L.canon_value(a2).get('dim'), L.canon_value(b3).get('dim')
+        noisy = da is not None and db is not None and da != db and all(abs(x - y) < 1e-7 for x, y in zip(da, db))
+        cases = [('add', lambda: a2 + b3, {'val': 5.0, 'dim': want_dim}), ('sub', lambda: a2 - b3, {'val': -1.0, 'dim': want_dim}),
+                 ('lt', lambda: a2 < b3, {'bool': True}), ('ge', lambda: a2 >= b3, {'bool': False}),
+                 ('eq', lambda: a2 == b2, {'bool': True}), ('ne', lambda: a2 != b2, {'bool': False}),
+                 ('has_units', lambda: a2.has_units(tb), {'bool': True}), ('in_units', lambda: a2.in_units(tb), {'val': 2.0, 'dim': [0.0] * 7})]
+        for op, fn, exp in cases:
+            r = run_op(fn)
+            ctx.case(json.dumps(['route', op, ta, tb]), None)
+            ctx.count('route_operands')
+            if not agrees(r, exp):
+                ctx.violation('two quantities of one dimension (a non-integer exponent reached by different float routes) are not '
+                              'combined / compared as quantities of one dimension (%s)' % op,
+                              {'route_pair': [ta, tb], 'operation': op, 'exponent_by_definition': '%s^(%s)' % (base, e),
+                               'float_exponents': [da[k], db[k]]}, exp, r, finding='FU5' if (noisy and op != 'in_units') else None)
+
+
 def short_lived(obj, dim):
     from pgradd.Units import eval_qty
     if not any(dim):
@@ -542,6 +578,8 @@ def _run(ctx):
     construction_cases(ctx)
     # augmented assignment: += -= *= /= **= on scalar and array quantities, and running totals
     inplace_cases(ctx, batch)
+    # one dimension written by two float routes
+    route_operand_cases(ctx)
     # random magnitudes on random pairs
     for i in range(ctx.n(3000, 200000)):
         (ka, ua, _), (kb, _, ub) = rng.choice(KINDS), rng.choice(KINDS)
@@ -618,6 +656,8 @@ def _replay(ctx, rec, batch):
     from pgradd.Units import Quantity, FundamentalUnits
     inp = rec.get('input', rec)
     before = len(ctx.violations)
+    if 'route_pair' in inp:
+        before += sum(k['count'] for k in ctx.known_seen.values())
 
     def build(o):
         prim = list(FundamentalUnits._primitive_units)
@@ -626,6 +666,14 @@ def _replay(ctx, rec, batch):
         if not any(o['dim']):
             return val
         return val * Quantity(1.0, FundamentalUnits(exps, np.zeros(len(prim), dtype=bool)))
+    if 'route_pair' in inp:
+        global ROUTE_PAIRS
+        keep, ROUTE_PAIRS = ROUTE_PAIRS, [p for p in ROUTE_PAIRS if [p[0], p[1]] == inp['route_pair']]
+        try:
+            route_operand_cases(ctx)
+        finally:
+            ROUTE_PAIRS = keep
+        return len(ctx.violations) + sum(k['count'] for k in ctx.known_seen.values()) == before
     if 'running_total' in inp:
         h = inp['running_total']
         running_total(ctx, h['start_unit'], h['term_unit'], h['terms'], h['array'], h['subtract'])
